@@ -562,8 +562,23 @@ func createSwitchStatementChunks(stmt *ast.SwitchStatement, statementIndex int, 
 			// bodies, we want to completely omit even rendering the switch statement because
 			// it's a no-op. By early-returning here, we avoid adding the switch branchBehavior,
 			// which will result in the switch not being rendered in the output.
-			if len(branchCases) == 0 {
+			if len(branchCases) == 0 && !processedDefaultCase {
 				return remainingChunks, &jump{destChunkID: switchChunk.id}, returnID
+			}
+			if processedDefaultCase && !stmt.Cases[i].IsDefault {
+				// A body-less trailing case does nothing, but with a default body in
+				// play its value must not reach that body: send it to an empty chunk.
+				*chunkCounter++
+				emptyChunk := &chunk{
+					id:         *chunkCounter,
+					returnID:   returnID,
+					statements: []ast.Statement{},
+				}
+				remainingChunks = append(remainingChunks, emptyChunk)
+				branchCases = append(branchCases, &switchCaseBranch{
+					comparisonValue: stmt.Cases[i].Value,
+					destChunkID:     emptyChunk.id,
+				})
 			}
 		} else if !stmt.Cases[i].IsDefault {
 			branchCases = append(branchCases, &switchCaseBranch{
